@@ -322,7 +322,7 @@ class Recorder:
             pay.append(_pay_version(e, i))
             clk.append(_clk_class(e))
         q = backend.queue
-        queue = [0 if x is None else x.idx for x in q.items]
+        queue = [getattr(x, 'idx', 0) for x in q.items]      # 0 = a stop sentinel, whatever object it is
         conds = getattr(ctl, 'conds', [])
         cv = conds[-1] if conds else None
         threads = ctl.threads
